@@ -5,7 +5,7 @@ import ast
 from typing import Any
 
 from sa import ordenum
-from sa.guards import GuardWalk, is_opaque
+from sa.guards import GuardWalk
 from sa.kern import make_evaluator
 from sa.report import Ctx
 from sa.srcmodel import FuncInfo, func_body
@@ -176,6 +176,33 @@ def _slice_positions(ev: Evaluator, env: Env, e: ast.expr, arr: str,
     return facts.norm(first), facts.norm(last), -1
 
 
+def _store_into(s: ast.stmt, arr: str) -> ast.Subscript | None:
+    tgs = s.targets if isinstance(s, ast.Assign) else (
+        [s.target] if isinstance(s, (ast.AugAssign, ast.AnnAssign)) else [])
+    for t in tgs:
+        if isinstance(t, ast.Subscript) and isinstance(
+                t.value, ast.Name) and t.value.id == arr:
+            return t
+    return None
+
+
+def _is_increment(s: ast.stmt, tgt: ast.Subscript) -> bool:
+    """Does `s` add exactly 1 to the cell `tgt`?"""
+    def one(e: ast.expr) -> bool:
+        return isinstance(e, ast.Constant) and e.value == 1 and not \
+            isinstance(e.value, bool)
+    if isinstance(s, ast.AugAssign):
+        return isinstance(s.op, ast.Add) and one(s.value)
+    if isinstance(s, ast.Assign) and len(s.targets) == 1 and isinstance(
+            s.value, ast.BinOp) and isinstance(s.value.op, ast.Add):
+        me = ast.unparse(tgt)
+        for a, b in ((s.value.left, s.value.right),
+                     (s.value.right, s.value.left)):
+            if ast.unparse(a) == me and one(b):
+                return True
+    return False
+
+
 def _kernel(ctx: Ctx, k: FuncInfo, fea: bool) -> dict[str, Any]:
     repo = ctx.repo
     P = k.params
@@ -192,13 +219,11 @@ def _kernel(ctx: Ctx, k: FuncInfo, fea: bool) -> dict[str, Any]:
     ctx.need(idx is not None, f"{k.name}: accept `if`")
     h_incs: list[Poly] = []
     for s in body[:idx]:
-        if isinstance(s, ast.AugAssign) and isinstance(
-                s.target, ast.Subscript) and isinstance(
-                s.target.value, ast.Name) and s.target.value.id == "h":
-            ok = isinstance(s.op, ast.Add) and isinstance(
-                s.value, ast.Constant) and s.value.value == 1
-            if ok:
-                h_incs.append(ev.num(env, s.target.slice))
+        tgt_h = _store_into(s, "h")
+        if tgt_h is not None:
+            # `h[k] += 1`, `h[k] = h[k] + 1`, `h[k] = 1 + h[k]`
+            if _is_increment(s, tgt_h):
+                h_incs.append(ev.num(env, tgt_h.slice))
             else:
                 h_incs.append(Poly.var("?"))
             continue
@@ -314,7 +339,8 @@ def _kernel(ctx: Ctx, k: FuncInfo, fea: bool) -> dict[str, Any]:
     base.ge0 += [i, j - i - one, n - Poly.const(2) - j]
     n_slices = [0]
 
-    def walk(stmts: list[ast.stmt], facts: Facts) -> None:
+    def walk(stmts: list[ast.stmt], facts: Facts, env: Env = env) -> None:
+        env = env.copy()
         for s in stmts:
             if isinstance(s, ast.If):
                 try:
@@ -325,8 +351,19 @@ def _kernel(ctx: Ctx, k: FuncInfo, fea: bool) -> dict[str, Any]:
                 if c is not None:
                     f1.add_cond(c)
                     f2.add_cond(c_not(c))
-                walk(s.body, f1)
-                walk(s.orelse, f2)
+                walk(s.body, f1, env)
+                walk(s.orelse, f2, env)
+            elif isinstance(s, (ast.Assign, ast.AnnAssign)) and all(
+                    isinstance(t, ast.Name) for t in (
+                        s.targets if isinstance(s, ast.Assign)
+                        else [s.target])):
+                # a temporary of the accept branch (e.g. the slice end)
+                try:
+                    env = ev.stmt(env, s)
+                except Unsupported:
+                    for t in (s.targets if isinstance(s, ast.Assign)
+                              else [s.target]):
+                        env.vars.pop(t.id, None)
             elif isinstance(s, ast.Assign) and any(
                     isinstance(t, ast.Subscript) and isinstance(
                         t.value, ast.Name) and t.value.id == "x"
@@ -440,7 +477,7 @@ def _solve(ctx: Ctx, sv: FuncInfo, k: FuncInfo, fea: bool,
             sites[0] += 1
             args = [ev.expr(env, a) for a in n.args]
             res = Poly.atom(("app", "kernel", (Poly.const(sites[0]),)))
-            records["kernel"].append((args, res, n, env.copy()))
+            records["kernel"].append((args, res, n, env.copy(), gw._path))
             return res
         return NotImplemented
 
@@ -453,7 +490,7 @@ def _solve(ctx: Ctx, sv: FuncInfo, k: FuncInfo, fea: bool,
     gw.walk(env, func_body(sv))
     ctx.need(len(records["kernel"]) == 1,
              f"{sv.qualname}: exactly one call of {k.name}")
-    args, res, call, cenv = records["kernel"][0]
+    args, res, call, cenv, kpath = records["kernel"][0]
     binding = dict(zip(k.params, args))
     ncity = Poly.var("self.instance.n_cities")
     two = Poly.const(2)
@@ -533,7 +570,6 @@ def _solve(ctx: Ctx, sv: FuncInfo, k: FuncInfo, fea: bool,
         return
     r1, r2 = (Poly.atom(a) for a in draws)
     zero, nm2 = Poly.const(0), ncity - two
-    skips = [e for e in gw.exits if e.kind == "continue"]
     terms = [r1, r2, zero, nm2]
     bad = None
     n_models = 0
@@ -544,7 +580,9 @@ def _solve(ctx: Ctx, sv: FuncInfo, k: FuncInfo, fea: bool,
                     and m.rank(zero) <= m.rank(r2) <= m.rank(nm2)):
                 continue
             n_models += 1
-            if any(m.cond(e.cond) for e in skips):
+            # the call is reached iff no earlier `continue` was taken and
+            # every enclosing `if` holds
+            if not m.cond(kpath):
                 continue
             n_pass += 1
             ri_, rj_ = m.rank(iarg), m.rank(jarg)
